@@ -4,6 +4,7 @@ integer/uint16 facts the symbolic execution of the regenerated bodies needs.
 -/
 import VaxisModel.Model.SurfExec
 import VaxisModel.Gen.SurfaceBodies
+import VaxisModel.Lemmas.SurfacePaint
 
 namespace VaxisModel.Lemmas.SurfExec
 open VaxisModel.Model.SurfLang VaxisModel.Model.Window VaxisModel.Model.Surface VaxisModel.Model.Layout VaxisModel.Model.SurfExec
@@ -209,5 +210,130 @@ theorem foldS_sizeScan (txt : Bool) (maxW maxH : UInt16) : ∀ (lines : List (Li
     · exact ⟨Val.scanner txt r l, by simp [foldS, sizeStep, sizeLoop, hGuard, hg, scanPairs, liftStep]⟩
     · simp only [foldS, sizeStep, hg, if_false, sizeLoop, hGuard, if_true, scanPairs, liftStep]
       exact ih _ _ _
+
+/-! ### render -/
+
+/-- what `sort.Slice(s.Children, …)` leaves behind: the children of the rendered surface, sorted IN PLACE -/
+def sortedInPlace : Surface → Surface
+  | .mk w h b k => .mk w h b (Kids.sortZ k)
+
+
+/-- the loop as a pure fold that also sees the index -/
+def foldSI {α β : Type} (g : α → β → Nat → Step α) : List β → Nat → α → Step α
+  | [], _, a => .next a
+  | b :: r, i, a =>
+    match g a b i with
+    | .next a' => foldSI g r (i + 1) a'
+    | .brk a' => .next a'
+    | s => s
+
+theorem loopS_foldSI {α β : Type} (R : Ro) (body : St) (n : Nat) (bd : Bind) (mk : α → M) (inj : β → Val) (g : α → β → Nat → Step α)
+    (h : ∀ a x i, leave n (exec R body { (mk a) with ρ := bindIt bd (mk a).ρ (inj x) i }) = (g a x i).toRes mk) :
+    ∀ (items : List β) (i : Nat) (a : α), loopS R body n bd (items.map inj) i (mk a) = (foldSI g items i a).toRes mk := by
+  intro items
+  induction items with
+  | nil => intro i a; simp [loopS, foldSI, Step.toRes]
+  | cons b r ih =>
+    intro i a
+    rw [List.map_cons, loopS, h, foldSI]
+    cases hg : g a b i with
+    | next a' => simp only [Step.toRes]; exact ih (i + 1) a'
+    | brk a' => simp [Step.toRes]
+    | ret a' v => simp [Step.toRes]
+    | err e => simp [Step.toRes]
+
+/-- `row := i / int(W); col := i % int(W); win.SetCell(col, row, cell)` -/
+def cellStep (w : UInt16) (win : Win) (scr : Screen) (c : Cell) (i : Nat) : Step Screen :=
+  if w = 0 then .err (.panic .divideByZero)
+  else .next (win.setCell scr (Int.ofNat (i % w.toNat)) (Int.ofNat (i / w.toNat)) c)
+
+theorem foldSI_cells (w : UInt16) (win : Win) : ∀ (buf : List Cell) (i : Nat) (scr : Screen),
+    foldSI (cellStep w win) buf i scr =
+      if w = 0 ∧ buf ≠ [] then .err (.panic .divideByZero)
+      else .next (applyPaint scr ((cellOpsFrom w i buf).map (fun o => (win, o)))) := by
+  intro buf
+  induction buf with
+  | nil => intro i scr; simp [foldSI, cellOpsFrom, applyPaint]
+  | cons c r ih =>
+    intro i scr
+    by_cases hw : w = 0
+    · simp [foldSI, cellStep, hw]
+    · simp [foldSI, cellStep, hw, ih, cellOpsFrom, applyPaint]
+
+theorem insertByZ_map {α β : Type} (f : α → β) (x : Int × α) : ∀ l : List (Int × α),
+    insertByZ (x.1, f x.2) (l.map fun p => (p.1, f p.2)) = (insertByZ x l).map fun p => (p.1, f p.2) := by
+  intro l
+  induction l with
+  | nil => simp [insertByZ]
+  | cons y r ih =>
+    by_cases h : x.1 ≤ y.1
+    · simp [insertByZ, h]
+    · simp [insertByZ, h, ih]
+
+theorem sortByZ_map {α β : Type} (f : α → β) : ∀ l : List (Int × α),
+    sortByZ (l.map fun p => (p.1, f p.2)) = (sortByZ l).map fun p => (p.1, f p.2) := by
+  intro l
+  induction l with
+  | nil => simp [sortByZ]
+  | cons x r ih => simp only [List.map_cons, sortByZ, ih]; exact insertByZ_map f x _
+
+theorem any_sortByZ {α : Type} (P : Int × α → Bool) (l : List (Int × α)) : (sortByZ l).any P = l.any P := by
+  rw [Bool.eq_iff_iff]
+  simp only [List.any_eq_true]
+  constructor
+  · rintro ⟨x, hx, hp⟩; exact ⟨x, (VaxisModel.Lemmas.SurfacePaint.mem_sortByZ x l).1 hx, hp⟩
+  · rintro ⟨x, hx, hp⟩; exact ⟨x, (VaxisModel.Lemmas.SurfacePaint.mem_sortByZ x l).2 hx, hp⟩
+
+abbrev KidT := Int × (Int × Int × Surface)
+
+def subOf (p : KidT) : Val := .sub p.2.1 p.2.2.1 p.1 p.2.2.2
+
+def kidWinP (win : Win) (q : Int × Int × Surface) : Win :=
+  win.new q.1 q.2.1 (Int.ofNat q.2.2.w.toNat) (Int.ofNat q.2.2.h.toNat)
+
+def kidWin (win : Win) (p : KidT) : Win := kidWinP win p.2
+
+/-- the paint calls of one child -/
+def kidPaint (win : Win) (q : Int × Int × Surface) : List (Win × Op) := q.2.2.paint (kidWinP win q)
+
+theorem toVals_eq : ∀ k : Kids, Kids.toVals k = (Kids.toL k).map subOf
+  | .nil => rfl
+  | .cons c r z s rest => by simp [Kids.toVals, Kids.toL, subOf, toVals_eq rest]
+
+theorem toL_ofL : ∀ l : List KidT, Kids.toL (Kids.ofL l) = l
+  | [] => rfl
+  | (z, (c, r, s)) :: rest => by simp [Kids.ofL, Kids.toL, toL_ofL rest]
+
+theorem layers_eq (win : Win) : ∀ k : Kids, k.layers win = (Kids.toL k).map (fun p => (p.1, kidPaint win p.2))
+  | .nil => by simp [Kids.layers, Kids.toL]
+  | .cons c r z s rest => by simp [Kids.layers, Kids.toL, kidWinP, kidPaint, layers_eq win rest]
+
+theorem divZero_eq : ∀ k : Kids, k.divZero = (Kids.toL k).any (fun p => p.2.2.2.divZero)
+  | .nil => by simp [Kids.divZero, Kids.toL]
+  | .cons c r z s rest => by simp [Kids.divZero, Kids.toL, divZero_eq rest]
+
+/-- `child.Surface.render(win.New(col,row,W,H), focused)` for one child -/
+def kidStep (win : Win) (scr : Screen) (p : KidT) : Step Screen :=
+  match render p.2.2.2 (kidWin win p) scr with
+  | .ok scr' => .next scr'
+  | .error e => .err (.panic e)
+
+theorem applyPaint_append (scr : Screen) (a b : List (Win × Op)) : applyPaint scr (a ++ b) = applyPaint (applyPaint scr a) b := by
+  simp [applyPaint, List.foldl_append]
+
+theorem foldS_kids (win : Win) : ∀ (l : List KidT) (scr : Screen),
+    foldS (kidStep win) l scr =
+      if l.any (fun p => p.2.2.2.divZero) then .err (.panic .divideByZero)
+      else .next (applyPaint scr ((l.map (fun p => (p.1, kidPaint win p.2))).flatMap (·.2))) := by
+  intro l
+  induction l with
+  | nil => intro scr; simp [foldS, applyPaint]
+  | cons p r ih =>
+    intro scr
+    by_cases hd : p.2.2.2.divZero = true
+    · simp [foldS, kidStep, render, hd]
+    · simp only [Bool.not_eq_true] at hd
+      by_cases hr : (r.any fun p => p.2.2.2.divZero) = true <;> simp [foldS, kidStep, render, hd, hr, ih, applyPaint_append, kidPaint, kidWin]
+
 
 end VaxisModel.Lemmas.SurfExec
